@@ -326,6 +326,9 @@ func lookup(instr *ssa.Lookup, x, idx value) value {
 	case map[value]value, *hashmap:
 		var v value
 		var ok bool
+		if isSym(idx) {
+			unsup("symbolic map key (lookup)")
+		}
 		switch x := x.(type) {
 		case map[value]value:
 			v, ok = x[idx]
